@@ -81,4 +81,10 @@ def sliceSites : List String := ["$arg[0:3]", "$arg[3:]", "$arg[:strings.IndexRu
 /-- statements of StoreManager.Deliver the model relies on (present ones) -/
 def deliverShape : List String := ["call enmime.DecodeHeaders", "call .BeforeMessageStored.Emit", "call .ShouldStore", "call .Store.AddMessage", "call .AfterMessageStored.Emit", "call io.MultiReader", "format %s  for <%s>; %s\r\n", "format Return-Path: <%s>\r\n"]
 
+/-- what the accepting exit of the STARTTLS clause does to the connection, in source order (see harness/cmd/extract/tls.go) -/
+def starttlsSwitch : List String := ["wrap", "conn", "reader", "state"]
+
+/-- the struct declaring the *tls.ConnectionState field the STARTTLS clause assigns: perSession | perServer -/
+def tlsStateScope : String := "perSession"
+
 end Ibx.Gen.Smtp
